@@ -626,11 +626,11 @@ impl Check for C18 {
     fn plan(&self, tier: Tier) -> Vec<Section> {
         match tier {
             Tier::Quick => vec![
-                Section { name: "adaptive-uploader-fault-free", runs: 2_500 },
-                Section { name: "adaptive-uploader-with-faults", runs: 3_000 },
-                Section { name: "time-scripted-uploader-fault-free", runs: 2_000 },
-                Section { name: "time-scripted-uploader-with-faults-and-skew", runs: 2_500 },
-                Section { name: "wrap-around-focus", runs: 1_500 },
+                Section { name: "adaptive-uploader-fault-free", runs: 8_000 },
+                Section { name: "adaptive-uploader-with-faults", runs: 10_000 },
+                Section { name: "time-scripted-uploader-fault-free", runs: 7_000 },
+                Section { name: "time-scripted-uploader-with-faults-and-skew", runs: 9_000 },
+                Section { name: "wrap-around-focus", runs: 6_000 },
             ],
             Tier::Thorough => vec![
                 Section { name: "adaptive-uploader-fault-free", runs: 150_000 },
